@@ -439,12 +439,13 @@ theorem C15_resolve_extends (s : State) (req : List String) (op : Op) (h : ofReq
          simp only [Option.some.injEq] at h; subst h; simp only [not_or] at hv; simp [resolve, hv.1, hv.2])
     | simp at h
 
-/-- Which malformed paths still raise (six leaf handlers without a validator index an option that is not there):
-concrete instances on the initial file system, next to truncated paths that answer. -/
+/-- Malformed paths on the initial file system: a leaf handler that lacks an option answers `failure` (it used to raise
+`IndexError`: repair F-C05-2), like a validator that lacks one; an empty path or an unknown key is `unreachable`; some truncated
+paths are operations with an unknown verb; trailing extra elements are ignored. -/
 example :
-    resolve (init none) ["create", "file", "fa"] = .inr .raised ∧ resolve (init none) ["create", "folder"] = .inr .raised ∧
-    resolve (init none) ["restore", "file", "root"] = .inr .raised ∧ resolve (init none) ["restore", "folder"] = .inr .raised ∧
-    resolve (init none) ["access", "root"] = .inr .raised ∧ resolve (init none) ["folder", "root", "delete"] = .inr .raised ∧
+    resolve (init none) ["create", "file", "fa"] = .inr .failure ∧ resolve (init none) ["create", "folder"] = .inr .failure ∧
+    resolve (init none) ["restore", "file", "root"] = .inr .failure ∧ resolve (init none) ["restore", "folder"] = .inr .failure ∧
+    resolve (init none) ["access", "root"] = .inr .failure ∧ resolve (init none) ["folder", "root", "delete"] = .inr .failure ∧
     resolve (init none) ["folder", "nosuch", "delete"] = .inr .failure ∧
     resolve (init none) [] = .inr .unreachable ∧ resolve (init none) ["delete", "file", "root"] = .inr .failure ∧
     resolve (init none) ["folder"] = .inr .failure ∧ resolve (init none) ["folder", "root", "file"] = .inr .failure ∧
